@@ -29,6 +29,21 @@ ANGLES = {
     'nowhere else', 'verbatim', 'writes nothing', 'exactly one', 'if and only if', 'never exceed') and break only that one;
   * INTERACTION OF TWO FEATURES that are each handled correctly alone (for instance a colour and a loss, a transfer and a multifurcation, a
     prescribed root order and the unordered model, the ANY policy and a zero unit cost, two different orientations in one process).""",
+    7: """ANGLES for this round (pick whichever fit this property; stay inside its stated domain):
+  * BEYOND SMALL BOUNDS: assume the property is being checked by exhaustively enumerating SMALL instances - roughly: every input up to 4
+    object leaves, 3-4 species leaves and 3 gene families, unit costs from {0, 1, 2, a few larger values, infinity}, sequences of up to a
+    dozen elements, graphs of up to 5 vertices (7 when sparse), update histories of up to 5 steps, plus a handful of hand-picked larger
+    shapes (chains, one species) - and by replaying short operation histories on shared objects. Look for a regression that such a checker
+    would NOT meet although it lies inside the stated domain: one that needs a larger instance, a particular combination of depth AND width,
+    a cost value that is not small, a long history, many solutions, or two rare circumstances at once;
+  * LESS-USED ENTRY POINTS AND OPTIONS: public functions, methods, keyword arguments, defaults and command-line options that the property
+    covers but that a checker may never call or may call in one way only (e.g. an optional argument given explicitly, a second calling
+    convention, an alternative constructor, an iterator consumed lazily instead of through list(), a method of a result object);
+  * ARITHMETIC AND COMPARISON DETAILS: float rounding versus exact equality when costs are floats or fractions, comparisons between int and
+    the package's infinity object, negative zero, sums computed in a different order, `<` versus `<=` at a tie that only some cost vectors
+    produce;
+  * DATA-DEPENDENT ITERATION: behaviour that depends on which of several equal-cost candidates is met first, on the insertion order of a dict
+    or set built from the input, or on the textual order of names - arranged so that natural small inputs happen to come out right.""",
 }
 
 
